@@ -135,7 +135,9 @@ def run_sql(sql, tabs, dialect="sqlite"):
         tables = {t: (list(cols.keys()), [list(r) for r in zip(*cols.values())] if cols and len(next(iter(cols.values()))) else [])
                   for t, cols in tabs.items()}
         r = sqlsym.execute(sql, tables, dialect=dialect, udfs=udf.sqlite_udfs() if dialect == "sqlite" else {})
-        return SideResult(r.cols, r.rows, ordered=r.ordered)
+        sr = SideResult(r.cols, r.rows, ordered=r.ordered)
+        sr.order_kf = sqlsym.ORDER_KF[0]
+        return sr
     except Unmodelled as u:
         return SideResult(unmodelled=str(u))
     except (sqlsym.SQLParseError, sqlsym.SQLExecError) as e:
